@@ -57,6 +57,9 @@ def cases(tier, seed):
         out.append({'g': g, 'directed': d, 'ws': seed * 100 + i})
     out.append({'kind': 'degenerate', 'g': ['named', 'path', 2], 'directed': False, 'ws': 0, 'schemes': []})
     out.append({'kind': 'concurrent', 'g': ['named', 'path', 2], 'directed': False, 'ws': seed, 'schemes': [], 'n': 220 if tier == 'thorough' else 120})
+    # a heavy triangle with a tail of 1 100 (thorough: 2 300) unit connections: the tail is peeled one node per round,
+    # so whatever a routine does once per round (a recursion, a list append) happens a thousand times
+    out.append({'kind': 'long_tail', 'g': ['named', 'path', 2], 'directed': False, 'ws': 0, 'schemes': [], 'tail': 2300 if tier == 'thorough' else 1100})
     return out
 
 
@@ -105,6 +108,24 @@ def check_peel(A, k, mode, core, order, level):
 
 
 def run(case, bct, REC):
+    if case.get('kind') == 'long_tail':
+        n = 3 + case['tail']
+        W = np.zeros((n, n))
+        for a, b in ((0, 1), (1, 2), (0, 2)):
+            W[a, b] = W[b, a] = 5.0
+        idx = np.arange(2, n - 1)
+        W[idx, idx + 1] = W[idx + 1, idx] = 1.0
+        A = (W != 0).astype(float)
+        for fname, X, lvl in (('score_wu', W, 2.0), ('kcore_bu', A, 2), ('kcore_bd', A, 3)):
+            REC.tag(PROP, 'exec')
+            E = np.zeros((n, n))
+            E[:3, :3] = X[:3, :3]          # by construction: the tail unravels from its far end, the triangle stays
+            ok, res = call(REC, PROP, fname, getattr(bct, fname), X, lvl)
+            if ok:
+                REC.check(PROP, fname, 'core_matrix', bool(np.array_equal(np.asarray(res[0]), E)), {'tail': case['tail'], 'level': lvl, 'got_size': res[1]}, ('long_tail',))
+                REC.check(PROP, fname, 'size', int(res[1]) == 3, {'tail': case['tail'], 'level': lvl, 'got_size': res[1]}, ('long_tail',))
+                REC.note_nontrivial(PROP, fname, 'long_tail', case['tail'])
+        return
     if case.get('kind') == 'concurrent':
         from .common import concurrent_callers_agree
         REC.tag(PROP, 'exec')
